@@ -64,6 +64,9 @@ type Config struct {
 	// NoSameNameInit: never read a name inside the initialiser of a local statement (or for bounds)
 	// that declares the same name
 	NoSameNameInit bool
+	// GQualified: some accesses to variables are written `_G.name` (always the global of that name,
+	// whatever local is visible); the name token is then a field (Var == VarNone)
+	GQualified bool
 	// BlockReturn: any block (not only function bodies) may end in `return [explist] [;]`
 	BlockReturn bool
 }
@@ -199,6 +202,20 @@ func (g *Gen) register(name string, tok int, attrib string) {
 
 // emitVarRead emits a read of `name` with the binding the scoping rules give it here.
 func (g *Gen) emitVar(name string, write bool) int {
+	if g.cfg.GQualified && name != "self" && g.intn(6, "gQualified") == 0 {
+		isBuiltin := false
+		for _, b := range g.cfg.Builtins {
+			if b == name {
+				isBuiltin = true
+			}
+		}
+		if _, shadowed := g.lookup("_G"); !shadowed && !isBuiltin {
+			j := g.emit("_G")
+			g.Toks[j].Var = VarGlobal
+			g.emit(".")
+			return g.emit(name)
+		}
+	}
 	i := g.emit(name)
 	if d, ok := g.lookup(name); ok {
 		g.Toks[i].Var = d.tok
@@ -489,7 +506,12 @@ func (g *Gen) dupToksNear(from, to int) bool {
 	case nearOps[tk.Text] != "":
 		tk.Text = nearOps[tk.Text]
 	case isDecimal(tk.Text):
-		tk.Text = tk.Text + "7"
+		// a different value (never a second spelling of the same number: 0 -> 10, not 07)
+		if tk.Text[0] == '0' {
+			tk.Text = "1" + tk.Text
+		} else {
+			tk.Text = tk.Text + "7"
+		}
 	default:
 		for _, f := range fieldPool {
 			if f != tk.Text {
